@@ -20,10 +20,10 @@ PER_EXECUTION = {'Compiler': 'one Compiler per compile() call', 'Row': 'one row 
                  'EvalNode': 'compiled nodes are built afresh by every compilation', 'EvalAggregator': 'compiled per execution; aggregate state lives in the node and the per-execution store',
                  'EvalConstantSubquery1D': 'compiled per execution', 'SubqueryTable': 'built per compilation', 'EvalConstant': 'compiled per execution',
                  'ParseError': 'exception object', 'CompilationError': 'exception object', 'InvalidLiteral': 'exception object', 'BQLSemantics': 'one semantics object per parse() call',
-                 'Column': 'description entries are created per execution', 'Connection': 'only in __init__/attach (connection set-up happens before queries are shared)',
-                 'Table': 'set-up', 'AccountsTable': 'set-up', 'CommoditiesTable': 'set-up', 'PricesTable': 'set-up', 'BeanTable': 'set-up (update() writes to its own copy)',
-                 'GetAttrColumn': 'import-time construction', 'GetItemColumn': 'import-time construction', 'Func': 'compiled per execution', 'Col': 'import-time construction',
-                 'Op': 'compiled per execution'}
+                 'Column': 'description entries are created per execution', 'Func': 'compiled per execution', 'Op': 'compiled per execution'}
+# Connections, tables and column objects are shared between executions (that is what thread safety level 2 means): a write to
+# self.* in one of their methods is owned only while the object is under construction (__init__); connection set-up (attach)
+# is listed in SETUP.  Everything else in these classes needs a hand-written justification.
 # remaining sites, each justified by hand
 JUSTIFIED = {
     ('beanquery.compiler:Compiler.compile', 'attr:placeholder.name'):
@@ -201,6 +201,8 @@ def _classify(base, node, cls, params, fresh, key):
     if base in ('self', 'cls') and cls is not None:
         if base == 'cls':
             return None
+        if key is not None and str(key[1]).split('.')[-1] in ('__init__', '__post_init__'):
+            return f'self-of-{cls} under construction: the object is not shared before its constructor returns'
         if cls in PER_EXECUTION:
             return f'self-of-{cls}: {PER_EXECUTION[cls]}'
         if cls.startswith('Eval'):
@@ -246,3 +248,63 @@ def _threadsafety(modinfo):
     mod = modinfo.load('beanquery')
     vals = mod.assigns.get('threadsafety', [])
     return vals[-1].value if vals and isinstance(vals[-1], _ast.Constant) else None
+
+
+# exception objects and cursors aside, the classes whose self-writes are accepted above because "every execution builds its own"
+_PER_EXEC_BUILT = {c for c in PER_EXECUTION if c not in ('ParseError', 'CompilationError', 'InvalidLiteral', 'Cursor', 'Column')}
+
+
+@structural('C20', 'per-execution-allocation')
+def per_execution_allocation(modinfo):
+    """The ownership argument accepts writes to self.* of Compiler, Row, Allocator, compiled nodes ... because every execution
+    builds its own instances.  That premise is an obligation of its own: no instance of such a class is ever stored where two
+    executions can reach it - in an attribute of a shared object (connection, table, column, module, class body).  A
+    constructor call whose value is stored into self.<attr> of a class that is not itself per-execution, or bound at module /
+    class level, fails the obligation."""
+    out = []
+    for mname in MODULES:
+        mod = modinfo.load(mname)
+        if mod is None:
+            continue
+
+        def is_per_exec_ctor(call):
+            f = call.func
+            name = f.id if isinstance(f, _ast.Name) else (f.attr if isinstance(f, _ast.Attribute) else None)
+            return name is not None and (name in _PER_EXEC_BUILT or (name.startswith('Eval') and name[4:5].isupper()))
+
+        def visit(body, qual, cls, in_function):
+            for st in body:
+                if isinstance(st, _ast.FunctionDef):
+                    visit(st.body, f'{qual}.{st.name}' if qual else st.name, cls, True)
+                    continue
+                if isinstance(st, _ast.ClassDef):
+                    visit(st.body, f'{qual}.{st.name}' if qual else st.name, st.name, False)
+                    continue
+                if isinstance(st, (_ast.Assign, _ast.AnnAssign, _ast.AugAssign)) and st.value is not None:
+                    ctors = [n for n in _ast.walk(st.value) if isinstance(n, _ast.Call) and is_per_exec_ctor(n)
+                             and not any(isinstance(p, _ast.Lambda) for p in _ast.walk(st.value) if n in list(_ast.walk(p)) and p is not n)]
+                    targets = st.targets if isinstance(st, _ast.Assign) else [st.target]
+                    for t in targets:
+                        shared = None
+                        if isinstance(t, _ast.Name) and not in_function:
+                            shared = f'module / class level name {t.id}'
+                        base = t
+                        while isinstance(base, (_ast.Attribute, _ast.Subscript)):
+                            base = base.value
+                        if isinstance(t, (_ast.Attribute, _ast.Subscript)) and isinstance(base, _ast.Name) and base.id in ('self', 'cls') \
+                                and cls is not None and cls not in PER_EXECUTION and not cls.startswith('Eval'):
+                            shared = f'{_ast.unparse(t)} of the shared class {cls}'
+                        if shared and ctors:
+                            for c in ctors:
+                                out.append({'oid': f'{mname}:{qual}::per-execution-allocation:{_ast.unparse(t)}', 'kind': 'frame',
+                                            'label': f'instances of {_ast.unparse(c.func)} are built per execution and never stored in shared state',
+                                            'verdict': 'failed', 'detail': f'{_ast.unparse(c.func)}(...) is stored in {shared}', 'lineno': st.lineno})
+                for fld in ('body', 'orelse', 'finalbody', 'handlers'):
+                    sub = getattr(st, fld, None)
+                    if isinstance(sub, list):
+                        visit([s for s in sub if isinstance(s, _ast.stmt)] + [s2 for h in sub if isinstance(h, _ast.ExceptHandler) for s2 in h.body], qual, cls, in_function)
+        visit(mod.tree.body, '', None, False)
+    out.append({'oid': 'beanquery::per-execution-allocation:premise', 'kind': 'frame',
+                'label': 'no instance of a per-execution class is stored in shared state',
+                'verdict': 'proved' if not out else 'failed', 'detail': f'{len(out)} offending store(s)', 'lineno': None})
+    return out
